@@ -30,7 +30,7 @@ notes = open(os.path.join(src, "notes.md")).read() if os.path.exists(os.path.joi
 meta = {
     "property": pid,
     "origin": "written by an independent sub-agent that saw only the property text and its own worktree of the repository"
-              + ("" if root == "/tmp/seeded_out" else " (second round: asked for changes that need something specific to manifest, and told what the first round had produced)"),
+              + ("" if root == "/tmp/seeded_out" else " (later round %s: asked for changes that need something specific to manifest, and told which ideas earlier rounds had already produced)" % os.path.basename(root)),
     "needs_to_manifest": notes.strip(),
     "confirmed": {
         "patch_applies_to_current_tree": True,
